@@ -26,6 +26,10 @@ func GetInPortNames() []string {
 	return names
 }
 
+// MaxReadableTracks is the largest track count gomidi's SMF reader can walk
+// through (it keeps the track index in an int16).
+const MaxReadableTracks = 1<<15 - 1
+
 type Reader interface {
 	Events(r io.Reader) iter.Seq[smf.TrackEvent]
 	Play(r io.Reader, outPortName string) error
